@@ -631,6 +631,71 @@ pub fn run_c06(cfg: &Cfg) {
             }
         }
     }
+    // systematic: every known field carried with every OTHER basic value type (the value kept plausible: the same text
+    // for the string-likes, a small number for the fixed ones) in an otherwise valid header: a known code with a value of
+    // the wrong type must be refused, whichever wrong type it is
+    for typ in 1..=4u8 {
+        for code in 1..=9u8 {
+            let req_codes: &[u8] = match typ {
+                1 => &[1, 3],
+                4 => &[1, 3, 2],
+                2 => &[5],
+                _ => &[4, 5],
+            };
+            let text: &str = match code {
+                1 => "/a",
+                2 | 4 => "a.b",
+                3 => "M",
+                6 | 7 => ":1.5",
+                8 => "u",
+                _ => "",
+            };
+            let right = match code {
+                1 => 'o',
+                8 => 'g',
+                5 | 9 => 'u',
+                _ => 's',
+            };
+            for wrong in ['s', 'o', 'g', 'u', 'y', 'b', 'q', 't'] {
+                if wrong == right {
+                    continue;
+                }
+                // a value that is valid for the wrong type itself (so that only the code/type pairing is at fault)
+                let v = match wrong {
+                    's' => s(if text.is_empty() { "7" } else { text }),
+                    'o' => s(if text.starts_with('/') { text } else { "/a" }),
+                    'g' => s(if code == 8 { text } else { "s" }),
+                    'b' => Val::Num(1),
+                    _ => Val::Num(7),
+                };
+                for le in [true, false] {
+                    let mut fields: Vec<(u8, Ty, Val)> = Vec::new();
+                    for c in req_codes {
+                        if *c != code {
+                            let (t, vv) = match c {
+                                1 => (Ty::Base('o'), s("/a")),
+                                2 => (Ty::Base('s'), s("a.b")),
+                                3 => (Ty::Base('s'), s("M")),
+                                4 => (Ty::Base('s'), s("a.b.E")),
+                                _ => (Ty::Base('u'), Val::Num(1000)),
+                            };
+                            fields.push((*c, t, vv));
+                        }
+                    }
+                    fields.push((code, Ty::Base(wrong), v.clone()));
+                    let f = Foreign { le, typ, flags: 0, version: 1, serial: 5, body: vec![], fields };
+                    let bytes = f.write();
+                    let obs = lib_decode_msg(&bytes, None);
+                    let req = format!("h.msg {}", hex(&bytes));
+                    if obs != "reject" {
+                        out.violation(&req, &format!("header field code {} carried as type {:?} (prescribed: {:?}) was accepted: {}", code, wrong, right, obs));
+                    }
+                    out.hit("wrong_value_type");
+                    out.case(&req, &obs, true);
+                }
+            }
+        }
+    }
     for i in 0..n {
         let typ = *rng.pick(&[1u8, 1, 1, 2, 2, 3, 3, 4, 4, 4, 1, 2, 3, 4, 0, 5]);
         let mut fields: Vec<(u8, Ty, Val)> = Vec::new();
@@ -756,27 +821,40 @@ pub fn run_c06(cfg: &Cfg) {
             need_case(&mut out, &mut pair, &b);
         }
     }
-    // single-fault corruptions of the header region of pooled messages
-    let cap = if cfg.thorough { 600 } else { 200 };
+    // single-fault corruptions of the header region of pooled messages: every byte +1 -1 -2 -3 +4 -4 ^0x80 :=0/1 and
+    // truncation at every position (an understated / overstated length word by 1..4, a flipped type character, ...);
+    // over the cap: a uniform sample over the WHOLE header region
+    let cap = if cfg.thorough { 1500 } else { 500 };
     for m in &pool {
         let hdr_end = (16 + rd_u32_safe(m, 12)).min(m.len());
-        let mut n = 0;
-        'o: for i in 0..hdr_end.min(m.len()) {
-            for kind in 0..4 {
-                let mut x = m.clone();
-                match kind {
-                    0 => x[i] = x[i].wrapping_add(1),
-                    1 => x[i] ^= 0x80,
-                    2 => x[i] = if x[i] == 0 { 1 } else { 0 },
-                    _ => x.truncate(i),
-                }
-                out.hit("corruption");
-                out.case(&format!("h.msg {}", hex(&x)), &lib_decode_msg(&x, None_if_unwalkable(&x).as_deref()), true);
-                n += 1;
-                if n >= cap {
-                    break 'o;
-                }
+        let mut faults: Vec<(usize, u8)> = Vec::new();
+        for i in 0..hdr_end.min(m.len()) {
+            for kind in 0..9u8 {
+                faults.push((i, kind));
             }
+        }
+        if faults.len() > cap {
+            for k in 0..cap {
+                let j = k + rng.below((faults.len() - k) as u64) as usize;
+                faults.swap(k, j);
+            }
+            faults.truncate(cap);
+        }
+        for (i, kind) in faults {
+            let mut x = m.clone();
+            match kind {
+                0 => x[i] = x[i].wrapping_add(1),
+                1 => x[i] ^= 0x80,
+                2 => x[i] = if x[i] == 0 { 1 } else { 0 },
+                3 => x[i] = x[i].wrapping_sub(1),
+                4 => x[i] = x[i].wrapping_sub(2),
+                5 => x[i] = x[i].wrapping_sub(3),
+                6 => x[i] = x[i].wrapping_add(4),
+                7 => x[i] = x[i].wrapping_sub(4),
+                _ => x.truncate(i),
+            }
+            out.hit("corruption");
+            out.case(&format!("h.msg {}", hex(&x)), &lib_decode_msg(&x, None_if_unwalkable(&x).as_deref()), true);
         }
     }
     // random bytes
@@ -793,7 +871,7 @@ pub fn run_c06(cfg: &Cfg) {
         out.case(&format!("h.hdr {}", hex(&b)), &lib_decode_hdr(&b, None_if_unwalkable(&b).as_deref()), true);
     }
     out.finish(
-        "foreign headers from an independent writer: 4 valid + 2 invalid message types, required fields mostly present, optional fields, wrong value types, duplicates, unknown codes (10,11,42,127,128,255) and code 0 with variants of random (deep) type inserted at any position, shuffled field order, wrong version, zero serial, both byte orders; decoded as whole messages (h.msg) and headers (h.hdr); frame size of a real RecvConn on the first 16 bytes and on announced lengths around every limit (h.need); every single-byte fault / truncation of the header region of pooled messages; random bytes; distinct by request",
+        "foreign headers from an independent writer: 4 valid + 2 invalid message types, required fields mostly present, optional fields, wrong value types, duplicates, unknown codes (10,11,42,127,128,255) and code 0 with variants of random (deep) type inserted at any position, shuffled field order, wrong version, zero serial, both byte orders; decoded as whole messages (h.msg) and headers (h.hdr); frame size of a real RecvConn on the first 16 bytes and on announced lengths around every limit (h.need); single-byte faults (+1 -1 -2 -3 +4 -4 ^0x80 :=0/1, truncate; uniform sample over the whole header region when over the cap) of pooled messages; every known field duplicated / carried with every other basic type systematically; random bytes; distinct by request",
         false,
     );
 }
